@@ -307,7 +307,68 @@ func digestTaproot(r *vlib.Rand, res *result, allTypes bool) {
 	}
 }
 
+// digestBoundary: the CompactSize width changes (0xfc/0xfd) inside the three preimages, met on purpose: a transaction with
+// 254..300 inputs and outputs, digests requested for the inputs around index 252 (legacy SIGHASH_SINGLE writes nIn+1 as
+// a count), script codes of 252..254 and 0xffff..0x10000 bytes, for every base type with and without ANYONECANPAY.
+func digestBoundary(r *vlib.Rand, res *result) {
+	t, spent := randTx(r, 1, 1)
+	nin, nout := 254+r.Intn(47), 254+r.Intn(47)
+	t.In = make([]reftx.TxIn, nin)
+	spent = make([]reftx.TxOut, nin)
+	for i := range t.In {
+		r.Fill(t.In[i].PrevHash[:])
+		t.In[i].PrevIndex = uint32(r.Intn(5))
+		t.In[i].ScriptSig = r.Bytes(r.Intn(4))
+		t.In[i].Sequence = []uint32{0xffffffff, 0xfffffffe, 0, r.U32()}[r.Intn(4)]
+		spent[i] = reftx.TxOut{Value: randAmount(r), PkScript: r.Bytes(1 + r.Intn(34))}
+	}
+	t.Out = make([]reftx.TxOut, nout)
+	for i := range t.Out {
+		t.Out[i] = reftx.TxOut{Value: randAmount(r), PkScript: r.Bytes(r.Intn(34))}
+	}
+	tx := toBtc(t, spent)
+	scLens := []int{0, 1, 252, 253, 254, 0xffff, 0x10000}
+	for _, idx := range []int{0, 250, 251, 252, 253, nin - 1} {
+		for _, ht := range []uint32{1, 2, 3, 0x81, 0x82, 0x83} {
+			sc := bytes.Repeat([]byte{0x51}, scLens[r.Intn(len(scLens))]) // OP_1 only: nothing to strip, every length parses
+			amount := randAmount(r)
+			wl := refsighash.Legacy(t, sc, idx, ht)
+			ww := refsighash.WitnessV0(t, sc, amount, idx, ht)
+			gl, pl := recoverCall(func() []byte { return tx.SignatureHash(sc, idx, int32(ht)) })
+			gw, pw := recoverCall(func() []byte { return tx.WitnessSigHash(sc, uint64(amount), idx, int32(ht)) })
+			q := tapReq{idx: idx, ht: byte(ht)}
+			wt, terr := refsighash.Taproot(t, spent, idx, byte(ht), nil, nil)
+			gt, pt := recoverCall(func() []byte { return tx.TaprootSigHash(q.execdata(), idx, byte(ht), false) })
+			res.mu.Lock()
+			res.Counters["digests"] += 3
+			res.mu.Unlock()
+			res.count("digests_boundary(inputs>=254,index~252)")
+			res.combo(fmt.Sprintf("boundary idx%d %s sc%d", idx, hashTypeKind(ht), len(sc)))
+			w := map[string]interface{}{"inputs": nin, "outputs": nout, "input": idx, "hash_type": ht, "script_code_len": len(sc), "amount": uint64(amount),
+				"tx": vlib.Hex(t.Serialize(false))}
+			for _, c := range []struct {
+				algo      string
+				want, got []byte
+				pan       string
+			}{{"legacy", wl[:], gl, pl}, {"bip143", ww[:], gw, pw}, {"taproot", wt[:], gt, pt}} {
+				if c.algo == "taproot" && terr != nil {
+					continue
+				}
+				res.key(c.want)
+				if c.pan != "" || !bytes.Equal(c.want, c.got) {
+					w2 := map[string]interface{}{"algo": c.algo, "expected": vlib.Hex(c.want), "observed": vlib.Hex(c.got), "panic": c.pan}
+					for k, v := range w {
+						w2[k] = v
+					}
+					res.report(c.algo+"-digest-mismatch/compactsize-boundary/"+hashTypeKind(ht), fmt.Sprintf("%s digest of input %d of a %d-in/%d-out transaction (script code %d bytes, hash type %s) differs from the reference", c.algo, idx, nin, nout, len(sc), hashTypeKind(ht)), w2)
+				}
+			}
+		}
+	}
+}
+
 func runDigests(r *vlib.Rand, n int, res *result) {
+	digestBoundary(r, res)
 	for res.Counters["digests"] < int64(n) {
 		switch k := r.Intn(96); {
 		case k < 45:
